@@ -138,11 +138,32 @@ func (c *caseCtx) judge(tree *gen.Expr, expr string, doc interface{}, api string
 	return false
 }
 
+// poisons are expressions evaluated (and mostly rejected) *before* a judged call in a fixed quarter of
+// the cases: whatever a failed or odd earlier call leaves behind in process-wide state (pools, caches,
+// reused lexers) must not leak into the next, unrelated call. The outcome of the poison call itself is
+// not judged here (C05/C17 do that).
+var poisons = []string{
+	"'it\\'s", "'\\'", "'é\\'😀", "\"ab\\\"c", "\"\\u00e9", "`[1,\\`", "`\"\\`x", "((((a", "[[[[", "{a:{a:", "a[?b==`1", "a.b.c.d.",
+	"abs(abs(abs(", "&", "a[0", "a[:", "a ~ b", "foo[", "'a\\'b'", "`\"x\\`y\"`", "\"q\\\"r\"", "a[::0]", "abs('a')", "unknown_fn(@)", "length(@)",
+	"sort_by(@, &a)", "[?a==`1`].b | [0]", "'" + strings.Repeat("\\'x", 40), "`" + strings.Repeat("[", 40),
+}
+
+func poison(idx int) {
+	if idx%4 != 1 {
+		return
+	}
+	p := poisons[(idx/4)%len(poisons)]
+	mon.Guard(func() (interface{}, error) { return jmespath.Search(p, poisonDoc) })
+}
+
+var poisonDoc = map[string]interface{}{"a": []interface{}{float64(1), "x"}, "b": "s"}
+
 // runBoth evaluates expr on doc through both API entry points and judges
 // both against the model. The document handed to the library is a private
 // deep copy.
 func (c *caseCtx) runBoth(tree *gen.Expr, expr string, doc interface{}) (ref.Result, mon.Observed, bool) {
 	res := ref.RefSet(tree, doc, gen.Quirks{})
+	poison(c.idx)
 	o1 := apiSearch(expr, mon.DeepCopy(doc))
 	ok := c.judge(tree, expr, doc, "Search", o1, res)
 	// the compiled path answers twice (fresh deep copies): a cache or leftover state on the compiled
@@ -163,6 +184,7 @@ func (c *caseCtx) runBoth(tree *gen.Expr, expr string, doc interface{}) (ref.Res
 // C13 already establishes one-shot ≡ compiled).
 func (c *caseCtx) runOne(tree *gen.Expr, expr string, doc interface{}) (ref.Result, mon.Observed, bool) {
 	res := ref.RefSet(tree, doc, gen.Quirks{})
+	poison(c.idx)
 	o1 := apiSearch(expr, mon.DeepCopy(doc))
 	ok := c.judge(tree, expr, doc, "Search", o1, res)
 	return res, o1, ok
